@@ -213,6 +213,9 @@ def spellings():
     for k, item in enumerate(['wire.Struct(new(os.LinkError), "*")', 'wire.Struct(new(os.LinkError), "Op", "Old")', "os.LinkError{}",
                               'wire.Struct(new(os.LinkError), "Op", "Err")']):
         add("foreigndup/%d" % k, inj("Init", "os.LinkError", "wire.Build(NewStr, %s)" % item))
+    # an exported alias of an unexported type of another package in the injector's signature (D41)
+    add("aliashidden/result", inj("Init", "(zsets.Shown, error)", "wire.Build(zsets.NewShown)"))
+    add("aliashidden/param", "func Init(x []zsets.Shown) int {\n\tpanic(wire.Build(NewInt))\n}\n")
     add("sets/multi", "func twoSets() (wire.ProviderSet, wire.ProviderSet) { return wire.NewSet(), wire.NewSet() }\n\n"
                       "var A, B = twoSets()\n\n" + inj("Init", "int", "wire.Build(NewInt)"))
     add("sets/multi-used", "func twoSets() (wire.ProviderSet, wire.ProviderSet) { return wire.NewSet(NewInt), wire.NewSet() }\n\n"
@@ -245,7 +248,7 @@ def spellings():
 
 
 HELPERS = {
-    "zsets/zsets.go": "package zsets\n\nimport \"github.com/google/wire\"\n\nfunc NewInt() int { return 3 }\n\nvar Default = wire.NewSet(NewInt)\n\nvar Plain = 7\n\ntype Hidden struct {\n\tA int\n\tb string\n}\n\nfunc (h Hidden) B() string { return h.b }\n",
+    "zsets/zsets.go": "package zsets\n\nimport \"github.com/google/wire\"\n\nfunc NewInt() int { return 3 }\n\nvar Default = wire.NewSet(NewInt)\n\nvar Plain = 7\n\ntype Hidden struct {\n\tA int\n\tb string\n}\n\ntype hiddenT struct{ N int }\n\ntype Shown = hiddenT\n\nfunc NewShown() (Shown, error) { return hiddenT{N: 1}, nil }\n\nfunc (h Hidden) B() string { return h.b }\n",
     # re-exports a provider set and does not import wire itself
     "zshared/zshared.go": "package zshared\n\nimport \"%s/zsets\"\n\nvar Default = zsets.Default\n\nvar Number = zsets.Plain\n\nvar Fn = zsets.NewInt\n" % MOD,
 }
@@ -261,6 +264,8 @@ def materialise(ws, idx, label, imp, body):
     for extra in ("os", "io"):
         if re.search(r"\b%s\." % extra, body):
             imports += '\n\t"%s"' % extra
+    if "zsets." in body:
+        imports += '\n\t"%s/zsets"' % MOD
     if "zshared." in body:
         imports += '\n\t"%s/zshared"' % MOD
     src = HDR.format(pkg=pkg, imports=imports) + "\nvar _ = errors.New\n\n" + body
